@@ -153,6 +153,22 @@ MUTATIONS = {
         ["C12", "C07"],
         [("flox/core.py", "reindexed = np.full_like(array, fill_value, shape=shape)", "reindexed = np.full(shape, fill_value, dtype=array.dtype)")],
     ),
+    "merged_cohort_first_chunks": (
+        ["C09"],
+        [("flox/core.py", "        chunk = tuple(set(itertools.chain(*allchunks)))\n", "        chunk = tuple(label_chunks[cohort[0]].tolist())\n")],
+    ),
+    "blockwise_when_le2": (
+        ["C09", "C02"],
+        [("flox/core.py", "if bitmask.shape[CHUNK_AXIS] == 1 or (chunks_per_label == 1).all():", "if bitmask.shape[CHUNK_AXIS] == 1 or (chunks_per_label <= 2).all():")],
+    ),
+    "cohort_name_fix_reverted": (
+        ["C09", "C02"],
+        [("flox/core.py", 'name = "groupby-cohort-" + tokenize(array, index, reindexer)', 'name = "groupby-cohort-" + tokenize(array, index)')],
+    ),
+    "subset_slice_drops_last": (
+        ["C09", "C02"],
+        [("flox/core.py", "                stop = i[-1] + 1\n", "                stop = i[-1] + (1 if len(i) < 3 else 0)\n")],
+    ),
     "nanmin_combine_min": (
         ["C04"],
         [("flox/aggregations.py", '    chunk="nanmin",\n    combine="nanmin",', '    chunk="nanmin",\n    combine="min",')],
